@@ -197,6 +197,32 @@ class BloomDeduplicator:
                     return False
             return True
 
+    def is_definitely_new(self, message_id: str) -> bool:
+        """Return True only if the filter is authoritative AND does not
+        contain the ID, decided atomically under the filter's lock.
+
+        Checking maybe_seen() and authoritative separately is racy when
+        another thread rotates the filter in between: a negative taken while
+        a hydrate() was still loading IDs could be paired with the authority
+        granted when that hydrate() finished (or authority read before a
+        reset() with a negative read after it).
+
+        Args:
+            message_id: The unique message ID to check
+
+        Returns:
+            True if the durable is-processed check may be skipped.
+        """
+        positions = self._get_hash_positions(message_id)
+
+        with self._lock:
+            if not self._authoritative:
+                return False
+            for pos in positions:
+                if not self._get_bit(pos):
+                    return True
+            return False
+
     def mark_seen(self, message_id: str) -> None:
         """Mark message as seen in the filter.
 
